@@ -350,10 +350,64 @@ def switch(world):
     install(world)
 
 
+# --------------------------------------------------------------------------- process image
+
+_IMAGE_MODS = set()
+_IMAGE = []          # (container object, pristine deep copy): module-level and class-level mutable containers of the library
+
+
+def _snapshot_process_image():
+    """Remember the contents of every mutable container the library keeps at module or class level (format registry,
+    caches, memo tables...) as they are right after import: one simulated process start."""
+    import copy
+    import inspect
+    seen = {id(o) for o, _ in _IMAGE}
+
+    def note(obj):
+        if type(obj) in (dict, list, set) and id(obj) not in seen:
+            seen.add(id(obj))
+            try:
+                _IMAGE.append((obj, copy.deepcopy(obj)))
+            except Exception:  # noqa: BLE001 - holds something that cannot be copied: left alone
+                pass
+
+    for mod in _lib_modules():
+        if mod.__name__ in _IMAGE_MODS:
+            continue
+        _IMAGE_MODS.add(mod.__name__)
+        for name, value in list(vars(mod).items()):
+            if name.startswith("__") or name in ("open", "os", "socket"):
+                continue
+            note(value)
+            if inspect.isclass(value) and getattr(value, "__module__", "").startswith("cincoconfig"):
+                for cname, cval in list(vars(value).items()):
+                    if not (cname.startswith("__") and cname.endswith("__")):
+                        note(cval)
+
+
 def reset_process_state():
-    """What a process restart resets besides Python objects: the format registry."""
+    """What a process restart resets besides Python objects: everything the library keeps at module or class level
+    (the format registry, and any cache a changed tree may add) goes back to its state right after import."""
+    import copy
+    _snapshot_process_image()          # modules imported since (lazily loaded formats)
+    for obj, pristine in _IMAGE:
+        fresh = copy.deepcopy(pristine)
+        if isinstance(obj, list):
+            obj[:] = fresh
+        else:
+            obj.clear()
+            obj.update(fresh)
     try:
-        ConfigFormat._ConfigFormat__registry.clear()
         ConfigFormat._ConfigFormat__initialized = False
-    except AttributeError:  # a changed tree may have renamed them; nothing to reset then
+    except AttributeError:  # a changed tree may have renamed it
         pass
+    for mod in _lib_modules():
+        for value in list(vars(mod).values()):
+            if callable(value) and hasattr(value, "cache_clear"):
+                try:
+                    value.cache_clear()      # functools caches at module level
+                except Exception:  # noqa: BLE001
+                    pass
+
+
+_snapshot_process_image()
